@@ -280,6 +280,27 @@ def swOf (rs : List Field) (starts : List (Nat × Nat)) : List Nat :=
 /-- one field block of compileStructBody (compiler.go:1097-1118): the offset path, the value, `load`, back to `y0` -/
 def fieldBlock (path : Program) (val : Program) (y0 : Nat) : Program := path ++ val ++ [.load, .goto y0]
 
+/-- compilePtr for a pointer KIND type `self` whose element is the named struct `e` and on which `checkMarshaler` finds nothing:
+    the walk reaches `e` and compiles it with compileOps - in place or, beyond the inline limits, as `_OP_recurse e`, whose own
+    program starts with compileOne's `checkMarshaler` (and so calls `(*e).UnmarshalJSON` if there is one) -/
+def nptrCode (lib : LibCode) (down : Bool) (tab : Tab) (pc sp : Nat) (self : GoType) (e : String) : Program × Tab :=
+  let chain := fin true tab (pc + 1) (.lib e) fun tb p => (lib tb e p sp).getD ([.isNull (p + 2), .unsupported (.lib e)], tb)
+  if down then (.deref self :: chain.1, chain.2)
+  else
+    let nilAt := pc + 1 + chain.1.length + 1
+    ([.isNull nilAt] ++ chain.1 ++ [.goto (nilAt + 1), .nil1], chain.2)
+
+/-- the type of a struct FIELD as `resolver.resolveFields` reports it (resolver.go:150-171): a pointer is taken apart and put
+    together again with `reflect.PtrTo`, so a field of a NAMED pointer type `type T *E` is compiled as the unnamed `*E` -
+    with the methods of `*E`.  `dflt` = compileOne of the declared type. -/
+def fieldWhole (lib : LibCode) (sp : Nat) (t : GoType) (dflt : Tab → Nat → Program × Tab) : Tab → Nat → Program × Tab :=
+  match t with
+  | .lib n =>
+    (match nptrElem n with
+     | some e => fun tb p => wrapOne tb p (.ptr (.lib e)) fun tb' p' => nptrCode lib false tb' p' (sp + 1) (.ptr (.lib e)) e
+     | none => dflt)
+  | _ => dflt
+
 mutual
 /-- compileOps (compiler.go:680) for a type whose code starts at `pc`; `down` = the type was reached by compilePtr's walk -/
 def ops (co : COpts) (lib : LibCode) (down : Bool) (tab : Tab) (pc sp : Nat) : GoType → Program × Tab
@@ -291,7 +312,10 @@ def ops (co : COpts) (lib : LibCode) (down : Bool) (tab : Tab) (pc sp : Nat) : G
   | .num => fin down tab pc .num fun tb p => (prim p .num, tb)                               -- :1015 json.Number
   | .str => fin down tab pc .str fun tb p => (strBody p .str, tb)
   | .any => fin down tab pc .any fun tb p => ([.isNull (p + 3), .any, .goto (p + 4), .nil2], tb)   -- :1297 compileInterface
-  | .lib n => fin down tab pc (.lib n) fun tb p => (lib tb n p sp).getD ([.isNull (p + 2), .unsupported (.lib n)], tb)
+  | .lib n =>
+      match nptrElem n with
+      | some e => nptrCode lib down tab pc sp (.lib n) e     -- a named pointer type is of pointer KIND: compilePtr; it has no methods
+      | none => fin down tab pc (.lib n) fun tb p => (lib tb n p sp).getD ([.isNull (p + 2), .unsupported (.lib n)], tb)
   | .bytes => fin down tab pc .bytes fun tb p =>
       sliceBin tb p .bytes (.uint 8) fun tb' p' => wrapOne tb' p' (.uint 8) fun tb'' p'' => (prim p'' .u8, tb'')
   | .raw => fin down tab pc .raw fun tb p =>
@@ -336,7 +360,7 @@ def fieldBlocks (co : COpts) (lib : LibCode) (tab : Tab) (pc y0 sp : Nat) (rs : 
     match rs.find? fun f => f.idx == i with
     | none => fieldBlocks co lib tab pc y0 sp rs (i + 1) fs offs
     | some f =>
-      let whole := fun tb p => wrapOne tb p t fun tb' p' => ops co lib false tb' p' (sp + 1) t
+      let whole := fieldWhole lib sp t fun tb p => wrapOne tb p t fun tb' p' => ops co lib false tb' p' (sp + 1) t
       let v := if isQuoted f tag t then fieldStr tab (pc + 1) t whole else whole tab (pc + 1)
       let blk := fieldBlock [.index [i] off] v.1 y0
       let r := fieldBlocks co lib v.2 (pc + blk.length) y0 sp rs (i + 1) fs offs
@@ -350,17 +374,20 @@ def one (co : COpts) (lib : LibCode) (tab : Tab) (pc sp : Nat) (T : GoType) : Pr
 
 /-- the field blocks of a named struct: the resolved list comes from the library table, the field types are compiled
     with the next level of `lib` -/
-def libBlocks (co : COpts) (lib : LibCode) (y0 sp : Nat) : List LField → Tab → Nat → List Nat × Program × Tab
+def libBlocks (co : COpts) (lib : LibCode) (y0 sp : Nat) (i : Nat := 0) : List LField → Tab → Nat → List Nat × Program × Tab
   | [], tab, _ => ([], [], tab)
   | f :: fs, tab, pc =>
-    let path : Program := f.path.flatMap fun (o, d) =>
-      match d with
-      | none => [Instr.index [] o]
-      | some dt => [Instr.index [] o, Instr.deref dt]
+    -- the value path of the machine model (`sel`) is known for a field of the struct itself: its position
+    let path : Program := match f.path with
+      | [(o, none)] => [Instr.index [i] o]
+      | ps => ps.flatMap fun (o, d) =>
+        match d with
+        | none => [Instr.index [] o]
+        | some dt => [Instr.index [] o, Instr.deref dt]
     let whole := fun tb p => one co lib tb p (sp + 1) f.ty
     let v := if f.quoted then fieldStr tab (pc + path.length) f.ty whole else whole tab (pc + path.length)
     let blk := fieldBlock path v.1 y0
-    let r := libBlocks co lib y0 sp fs v.2 (pc + blk.length)
+    let r := libBlocks co lib y0 sp (i + 1) fs v.2 (pc + blk.length)
     (pc :: r.1, blk ++ r.2.1, r.2.2)
 
 def libFields (fs : List LField) : List Field :=
@@ -375,11 +402,12 @@ def libK (co : COpts) : Nat → LibCode
       match info.kind with
       | .str => (strBody pc (.lib n), tab)
       | .iface => ([.isNull (pc + 3), .dyn (.lib n) 0, .goto (pc + 4), .nil2], tab)
+      | .nptr _ => ([.isNull (pc + 2), .unsupported (.lib n)], tab)          -- not reached: `ops` compiles a named pointer itself
       | .st nfields fields =>
         if cutOff co pc sp nfields then ([Instr.recurse (.lib n)], tab)
         else if fields.isEmpty then (emptyStruct pc (.lib n), tab)
         else
-          let r := libBlocks co (libK co k) (pc + 14) sp fields tab (pc + 25)
+          let r := libBlocks co (libK co k) (pc + 14) sp 0 fields tab (pc + 25)
           let dropAt := pc + 25 + r.2.1.length
           (structHead pc (.lib n) (libFields fields) r.1 dropAt ++ r.2.1 ++ [Instr.drop], r.2.2)
 
